@@ -119,7 +119,9 @@ static void nav_doc(vf_gen *g, void *u)
     static vf_set S;
     static bool init;
     static vf_str key;
-    typedef struct { vf_snap s; } rec;
+    /* with each parser image goes what the APPLICATION knows about where it is: the containers it entered successfully (the
+     * library's private level flags are not consulted); unknown = after a call outside the enter / leave discipline */
+    typedef struct { vf_snap s; int8_t sp, unknown; char st[14]; } rec;
     static rec *states; static size_t cap;
     struct keyrec { char k[1024]; };
     if (!init) { vf_set_init(&S, sizeof(struct keyrec)); init = true; }
@@ -135,6 +137,7 @@ static void nav_doc(vf_gen *g, void *u)
     memcpy(kr.k, key.s, key.n);
     vf_set_insert(&S, &kr, &isnew);
     if (cap < 1) { cap = 1024; states = (rec *) vf_xmalloc(cap * sizeof *states); }
+    memset(&states[0], 0, sizeof states[0]);
     vf_snap_save(&states[0].s, &NL);
     int nops = with_lookups ? 6 + 9 * 2 : 6;
     for (size_t s = 0; s < S.n; s++) {
@@ -144,10 +147,12 @@ static void nav_doc(vf_gen *g, void *u)
             bool r;
             char name[40];
             bbuf raw = { 0, NULL };
-            /* lookups only while the innermost level is an object (documented precondition) */
-            bool inobj = p->depth > 0 && (p->state[p->depth - 1].flags & 3) && !(p->state[p->depth - 1].flags & 12);
-            /* also inside an array that is the value of a field (the level has a name): undocumented use, but all pointers are valid */
-            bool innamedarr = p->depth > 0 && (p->state[p->depth - 1].flags & 12) && p->state[p->depth - 1].current_name.bptr != NULL;
+            rec cur = states[s];
+            /* lookups only while the innermost entered container is an object (documented precondition) */
+            bool inobj = !cur.unknown && cur.sp > 0 && cur.st[cur.sp - 1] == 'O';
+            /* also inside an array (or arrays) below a field of an entered object: undocumented use, but the level has a name and all pointers are valid */
+            bool innamedarr = false;
+            if (!cur.unknown && cur.sp > 1 && cur.st[cur.sp - 1] == 'A') for (int i = 0; i < cur.sp - 1; i++) if (cur.st[i] == 'O') innamedarr = true;
             if (op >= 6 && ((!inobj && !innamedarr) || p->error_flags)) continue;
             switch (op) {
             case 0: r = binson_parser_next(p); snprintf(name, sizeof name, "next"); break;
@@ -164,6 +169,13 @@ static void nav_doc(vf_gen *g, void *u)
                 break;
             }
             }
+            /* the application's view after the call */
+            if (!cur.unknown && p->error_flags == BINSON_ERROR_NONE) {
+                if ((op == 1 || op == 2) && r) { if (cur.sp < 13) cur.st[cur.sp++] = op == 1 ? 'O' : 'A'; else cur.unknown = 1; }
+                else if ((op == 3 || op == 4) && r) { if (cur.sp > 0 && cur.st[cur.sp - 1] == (op == 3 ? 'O' : 'A')) { cur.st[--cur.sp] = 0; if (cur.sp == 0) cur.unknown = 1; } else cur.unknown = 1; }
+                else if ((op == 3 || op == 4) && !r) cur.unknown = 1;
+                else if (op == 5 && r) { /* a container was skipped as a whole: position unchanged */ }
+            } else cur.unknown = 1;
             NTRANS++;
             char tag[80];
             snprintf(tag, sizeof tag, "s%zu %s", s, name);
@@ -176,6 +188,7 @@ static void nav_doc(vf_gen *g, void *u)
             fold(" -> state %zu", idx);
             if (isnew) {
                 if (idx >= cap) { cap *= 2; states = (rec *) vf_xrealloc(states, cap * sizeof *states); }
+                states[idx] = cur;
                 vf_snap_save(&states[idx].s, &NL);
             }
         }
